@@ -62,6 +62,8 @@ FLOAT_FAM = {"Float", "Float32", "Float64"}
 
 def family(name: str) -> str:
     n = name.removeprefix("const ")
+    if n.startswith("List[") and n.endswith("]"):
+        return "List[" + family(n[5:-1]) + "]"
     if n in INT_FAM:
         return "int"
     if n in FLOAT_FAM or n.startswith("Decimal"):
